@@ -12,6 +12,8 @@ import traceback
 
 ROOT = os.path.dirname(os.path.dirname(os.path.abspath(__file__)))
 sys.path.insert(0, ROOT)
+from symex import hygiene  # noqa: E402
+
 REPO = os.environ.get("VERIF_REPO", "/repo")
 VENV_PY = os.environ.get("VERIF_REPLAY_PY", "/venv/bin/python")
 EXIT_OK, EXIT_VIOLATION, EXIT_INCONCLUSIVE, EXIT_HARNESS = 0, 1, 2, 3
@@ -62,6 +64,7 @@ def run_shard(job):
             state["n"] += 1
             if state["n"] <= 12:
                 sys.setprofile(prof)
+            hygiene.reset_process_state()
             try:
                 return H.scenario(e, params)
             finally:
